@@ -52,6 +52,13 @@ def gen_tie(rng, cid):
         cur = p.emit(f"bin OP_MUL {cur} {const(rng.choice([2.0, -1.5, 0.5]))}", "tree")
     elif r < 0.7:
         cur = p.emit(f"bin OP_ADD {cur} {p.emit(f'un OP_SIN {ax[0]}', 'tree')}", "tree")
+    elif r < 0.9:
+        # the tie under a kernel that reads operand VALUES, next to a non-constant operand
+        other = p.emit(f"bin OP_ADD {ax[rng.randrange(3)]} {const(rng.choice([1.0, 2.0, 3.0]))}", "tree")
+        op = rng.choice(["OP_MUL", "OP_MUL", "OP_DIV", "OP_ATAN2"])
+        shifted = p.emit(f"bin OP_ADD {cur} {const(4.0)}", "tree") if op != "OP_MUL" else cur     # keep divisors away from 0
+        l, rr = (shifted, other) if rng.random() < 0.5 else (other, shifted)
+        cur = p.emit(f"bin {op} {l} {rr}", "tree")
     if rng.random() < 0.5:
         cur = p.emit(f"bin OP_SUB {cur} {const(rng.choice([0.0, c + k, 1.0]))}", "tree")
     p.root = cur
